@@ -2,6 +2,7 @@
 small the window; a scheduler with a timeout terminates whatever its jobs do.
 """
 import itertools
+import os
 
 from .. import gen, mc
 
@@ -147,6 +148,20 @@ def fam_flat6fv(item):
             yield scn
 
 
+def fam_flat7fv(item):
+    # seven jobs, one join (two edges into the same job), one never-ending
+    # forever job, window 2 or 3, one raising job and one longer job
+    shape = item['shape']
+    for j in atomic_names(shape):
+        for w in (2, 3):
+            base = gen.apply_mods(shape, [(j, 'forever', True),
+                                          (j, 'dur', 'never'),
+                                          ('top', 'window', w)])
+            menu = gen.open_menu(base, {'dur': [2], 'out': ['raise']}, {}, {})
+            for scn, _ in gen.variants(base, menu, item['k']):
+                yield scn
+
+
 def fam_flat5(item):
     yield from forced(item['shape'], lambda n: [1, 2, 3])
 
@@ -160,7 +175,7 @@ def fam_sdnever(item):
         yield scn
 
 
-FAMS = {'sdnever': fam_sdnever, 'flat6fv': fam_flat6fv, 'flat5fv': fam_flat5fv, 'flatfv': fam_flatfv, 'flat5': fam_flat5, 'flat': fam_flat, 'flat4': fam_flat4, 'nest': fam_nest,
+FAMS = {'flat7fv': fam_flat7fv, 'sdnever': fam_sdnever, 'flat6fv': fam_flat6fv, 'flat5fv': fam_flat5fv, 'flatfv': fam_flatfv, 'flat5': fam_flat5, 'flat': fam_flat, 'flat4': fam_flat4, 'nest': fam_nest,
         'deep': fam_deep, 'tflat': fam_tflat, 'tnest': fam_tnest}
 
 
@@ -205,6 +220,13 @@ def items(tier, seed):
         yield dict(fam='flat5fv', shape=shape, k=1, bound=1)
     for shape in gen.sparse_shapes(6, 2):
         yield dict(fam='flat6fv', shape=shape, k=1, bound=2 if thorough else 1)
+    # seven jobs: the joins a<-b, a<-c over five unrelated jobs (the hang form
+    # of a double start needs that many, seed C03-w3m1)
+    if thorough or os.environ.get('VERIF_C03_FLAT7'):
+        for shape in gen.sparse_shapes(7, 2):
+            reqs = [len(n['req']) for n in shape['tree']['nodes']]
+            if max(reqs) == 2:
+                yield dict(fam='flat7fv', shape=shape, k=2, bound=2)
     # a nested scheduler whose shutdown phase is unbounded (shutdown_timeout
     # None, a handler that blocks until cancelled) under a timed parent
     for T in (1, 2, 3):
